@@ -122,7 +122,8 @@ PROPS = {
         kani=[dict(harness='k_kind_u8', klass='complete', schema=['u8'], family='kind-u8', target='HaystackKind::try_from(u8)'),
               dict(harness='k_kind_code_roundtrip', klass='complete', schema=['u8'], family='kind-u8', target='HaystackKind as u8'),
               dict(harness='k_kind_name_roundtrip', klass='complete', schema=['u8'], family='kind-name', target='HaystackKind <-> &str')],
-        witness='enum:kinds-grid',
+        witness=['enum:kinds-grid', 'enum:random-kinds-grid'],
+        enums_thorough=['enum:random-kinds-grid 20000'],
         design_ref='DESIGN.md section 4, C19',
         level_text=('Proof: Verus for all values (each of the 18 kind predicates equals kind_of(v) == K, exactly one is true, '
                     'From<&Value> for HaystackKind equals kind_of, each of the 20 TryFrom<&Value> conversions succeeds exactly for the '
